@@ -53,10 +53,16 @@ def use_repo_sources() -> None:
     if src not in sys.path:
         sys.path.insert(0, src)
     os.environ.setdefault(GUARD, "1")
-    try:  # a runaway case must not take the machine down: MemoryError instead
+
+
+def limit_memory():
+    """a runaway generated case must not take the machine down: MemoryError instead. Called AFTER the Lean build and audit:
+    the limit is inherited by child processes, and `lean` maps several GB of .olean files plus thread stacks (an aborted
+    `lean` under the limit showed up as a transient `exited with code 134`)."""
+    try:
         import resource
         lim = 24 * 2 ** 30
-        resource.setrlimit(resource.RLIMIT_AS, (lim, lim))
+        resource.setrlimit(resource.RLIMIT_AS, (lim, resource.RLIM_INFINITY))
     except Exception:  # noqa: BLE001
         pass
 
@@ -105,9 +111,13 @@ class _NoLock:
 def lake_build(targets: list[str], timeout: int = 3000) -> BuildResult:
     lock = _NoLock() if _HELD else _lock()
     try:
-        p = subprocess.run(
-            ["lake", "build", *targets], cwd=LEAN_DIR, capture_output=True, text=True, timeout=timeout,
-        )
+        for attempt in (1, 2):
+            p = subprocess.run(
+                ["lake", "build", *targets], cwd=LEAN_DIR, capture_output=True, text=True, timeout=timeout,
+            )
+            # a killed / aborted compiler process (out of memory on a loaded machine) is not a proof failure: once more
+            if p.returncode == 0 or not re.search(r"exited with code (134|137|139)", p.stdout + p.stderr) or attempt == 2:
+                break
     except subprocess.TimeoutExpired as e:
         raise InfraError(f"lake build timed out: {e}")
     finally:
